@@ -173,6 +173,10 @@ def h_step_getkeys(ctx):
     text = T._cls("protocol_messages.protocolentities.message_text.TextMessageProtocolEntity")("hi", to=T.J)
     app.toLower(text)
     iq = [n for n in bottom.down if n.tag == "iq"][0]
+    if ctx.flag("option_changed_while_the_keys_are_fetched"):
+        # the application switches the option while the request is in flight: the decision uses the option as it is when the bundle arrives
+        autotrust = not autotrust
+        st.setProp(PROP_IDENTITY_AUTOTRUST, autotrust)
     found, _ = c09.discover()
     fx = [c09._load_fixture(m, c)[1] for m, c, _l, _d in found if c == "ResultGetKeysIqProtocolEntityTest"][0]
     user = fx.getChild("list").children[0]
